@@ -1,6 +1,7 @@
 use crate::engine::{run_check, run_replay, Tier};
 use std::path::Path;
 
+pub mod c01;
 pub mod c02;
 pub mod c03;
 pub mod c06;
@@ -29,6 +30,7 @@ pub fn worker_main() {
 macro_rules! table {
     ($id:expr, $f:ident, $arg:expr) => {
         match $id {
+            "C01" => $f(&c01::C01, $arg),
             "C02" => $f(&c02::C02, $arg),
             "C03" => $f(&c03::C03, $arg),
             "C06" => $f(&c06::C06, $arg),
